@@ -3,11 +3,12 @@
     by requiring this file.  Non-vacuity: Compose/CutExamples.v, Compose/FlatExamples.v. *)
 From Coq Require Import String.
 From Coq Require Import List Ascii ZArith Bool Permutation.
-From CGV Require Import Base.PyBase Base.PyVal Base.NxGraph Resolve.Bonding Resolve.BondingDefs Resolve.CutCheck Resolve.CutBonding
+From CGV Require Import Base.PyBase Base.PyVal Base.NxGraph Gen.HydroGen Resolve.Bonding Resolve.BondingDefs Resolve.CutCheck Resolve.CutBonding
      Resolve.GraphOps Hydro.SquashDefs Hydro.HydroDefs.
 From CGV Require Hydro.Hydrogens Hydro.Squash.
 From CGV Require Import Compose.GraphAdj Compose.CutModel Compose.CutPos Compose.CutTables Compose.CutDisc Compose.CutSkeleton Compose.CutWf
-     Compose.CutHydrogens Compose.ComposeFlat Compose.CutSpecCheck Compose.RebuildWf Compose.CutSorted Compose.CutRunCheck Compose.CutRunSound Compose.SortIdentity Compose.LayeredStep Compose.Levels Compose.PartPerm Compose.Completion Compose.RelabelEdges Compose.CutIso Compose.OrderIndep Compose.ReturnedIso Compose.LevelsIso.
+     Compose.CutHydrogens Compose.ComposeFlat Compose.CutSpecCheck Compose.RebuildWf Compose.CutSorted Compose.CutRunCheck Compose.CutRunSound Compose.SortIdentity Compose.LayeredStep Compose.Levels Compose.PartPerm Compose.Completion Compose.RelabelEdges Compose.CutIso Compose.OrderIndep Compose.ReturnedIso Compose.LevelsIso
+     Compose.Transcript Compose.CompletionCar Compose.CutIsoCar Compose.ReturnedIsoCar.
 Import ListNotations.
 Open Scope Z_scope.
 
@@ -108,6 +109,42 @@ Proof. exact is_templateb_sound. Qed.
 Theorem C01_base_test_sound : forall C B, is_baseb C B = true -> is_base C B.
 Proof. exact is_baseb_sound. Qed.
 
+(** ---- any aromaticity transcript (Transcript.v, CompletionCar.v, CutIsoCar.v, ReturnedIsoCar.v) ---- *)
+(** the bonded graph of an all-atom step is an aromatised skeleton; so is every transcript of it *)
+Theorem C01_askel_of_skeleton : forall C m2, wf_cut C -> skeleton C true m2 -> adj_nodup m2 -> edge_nodup m2 -> askel C m2.
+Proof. exact askel_of_skeleton. Qed.
+Theorem C01_askel_of_transcript : forall C m2 g1, askel C m2 -> transcript_ok m2 g1 -> askel C g1.
+Proof. exact askel_of_transcript. Qed.
+(** the hydrogen completion after ANY transcript g1 of a cut molecule is its [completion_car] *)
+Theorem C01_completion_car_of : forall C g1 g4, wf_cut C -> heavy_atoms C -> askel C g1 ->
+  Hydrogens.rebuild_after_car false rebuild_copy_attrs_default g1 = Ok g4 -> completion_car C g1 g4.
+Proof. exact completion_car_of. Qed.
+(** ... in which every atom carries (least fitting valence - the TRANSCRIPT's bond sum) hydrogens *)
+Theorem C01_cut_hydrogens_car : forall C g1 g4 x, completion_car C g1 g4 -> In x (flat C) ->
+  exists val b idxs, Hydrogens.valence_of (payload C x) = Ok val /\ idxs = hyds g1 g4 (phi C x) /\
+    length idxs = Z.to_nat (Z.max (Hydrogens.missing_of val b) 0) /\
+    (forall n, gfind (phi C x) g1 = Some n -> Hydrogens.sum_orders (nadj n) = Ok b) /\
+    (fits val b -> exists v, least_fitting val b v /\
+       (Z.even b = true -> 2 * Z.of_nat (length idxs) = 2 * v - b) /\ (Z.even b = false -> 2 * Z.of_nat (length idxs) = 2 * v - b - 1)).
+Proof. exact cut_hydrogens_car. Qed.
+(** one returned all-atom resolve() with transcript car *)
+Definition C01_all_atom_step_car := all_atom_step_car.
+(** two completions whose transcripts agree on the bond orders through phi are isomorphic by the explicit map *)
+Theorem C01_sorted_iso_car : forall C1 C2 m1 g1 m2 g2 h1 h2 ms1 ms2, wf_cut C1 -> pperm C1 C2 -> completion_car C1 m1 g1 -> completion_car C2 m2 g2 -> corr_orders C1 C2 m1 m2 ->
+  sort_nodes_by_attr g1 = Ok h1 -> sort_nodes_by_attr g2 = Ok h2 -> sort_mapping g1 = Ok ms1 -> sort_mapping g2 = Ok ms2 ->
+  returned_iso_car (fun _ => True) C1 C2 m1 g1 m2 g2 h1 h2 ms1 ms2.
+Proof. exact sorted_iso_car. Qed.
+(** two returned all-atom resolve() calls on two listings of one cut, any corresponding transcripts *)
+Definition C01_returned_graphs_iso_car := returned_graphs_iso_car.
+Definition C01_base_order_returned_car := base_order_returned_car.
+Definition C06_layered_flat_resolve_iso_car := layered_flat_resolve_iso_car.
+Definition C06_compose_levels_resolve_iso_car := compose_levels_resolve_iso_car.
+(** the identity transcript meets the transcript hypotheses (so ReturnedIso.v's theorems are instances) *)
+Theorem C01_transcript_ok_id : forall C m2, askel C m2 -> transcript_ok m2 m2.
+Proof. exact transcript_ok_id. Qed.
+Theorem C01_corr_orders_id : forall C1 C2 m1 m2, wf_cut C1 -> pperm C1 C2 -> skeleton C1 true m1 -> skeleton C2 true m2 -> corr_orders C1 C2 m1 m2.
+Proof. exact corr_orders_id. Qed.
+
 Print Assumptions C01_cut_bonding_skeleton.
 Print Assumptions C01_cut_tables_dedicated.
 Print Assumptions C01_cut_tables_disjoint.
@@ -136,3 +173,12 @@ Print Assumptions C06_compose_flat_returned.
 Print Assumptions C12_sort_in_order.
 Print Assumptions C01_base_test_sound.
 Print Assumptions C01_template_test_sound.
+Print Assumptions C01_completion_car_of.
+Print Assumptions C01_cut_hydrogens_car.
+Print Assumptions C01_all_atom_step_car.
+Print Assumptions C01_sorted_iso_car.
+Print Assumptions C01_returned_graphs_iso_car.
+Print Assumptions C01_base_order_returned_car.
+Print Assumptions C06_layered_flat_resolve_iso_car.
+Print Assumptions C06_compose_levels_resolve_iso_car.
+Print Assumptions C01_corr_orders_id.
